@@ -364,6 +364,12 @@ func (x *Exec) specUnary(env *SpecEnv, n *EUnary) TV {
 			specFail("dereference of non-pointer")
 		}
 		return TV{x.Load(env.state(), p), p.Elem}
+	case "&":
+		loc := x.evalSpecLoc(env, n.X)
+		if loc == nil {
+			specFail("& of something that is not a location: %s", n.X.exprString())
+		}
+		return TV{loc, types.NewPointer(loc.Elem)}
 	}
 	specFail("unary %s", n.Op)
 	return TV{}
@@ -649,8 +655,55 @@ func (x *Exec) specSel(env *SpecEnv, n *ESel) TV {
 			}
 		}
 	}
+	if ix, ok := n.X.(*EIndex); ok {
+		// s[i].f on a slice of structs: read only the selected field instead of the whole element
+		if p := x.structElemLoc(env, ix); p != nil {
+			return x.selectField(env, TV{p, types.NewPointer(p.Elem)}, n.Sel)
+		}
+	}
+	if c, ok := n.X.(*ECall); ok {
+		if csel, ok := c.Fun.(*ESel); ok {
+			// recv.M(args).f : state the representation facts of the selected field only
+			prevSel := x.rawSel
+			x.rawSel, x.rawDone = csel, false
+			base := x.evalSpec(env, n.X)
+			x.rawSel = prevSel
+			if x.rawDone {
+				x.rawDone = false
+				if sv, ok := base.V.(*StructV); ok {
+					if idx, f := findField(sv.T, n.Sel); idx >= 0 {
+						x.assumeTypeInv(env.state(), f.Type(), sv.Fields[idx])
+						x.markOld(env.state(), f.Type(), sv.Fields[idx])
+						return TV{sv.Fields[idx], f.Type()}
+					}
+				}
+				// promoted field or unexpected shape: fall back to the facts of the whole value
+				x.assumeTypeInv(env.state(), base.T, base.V)
+				x.markOld(env.state(), base.T, base.V)
+			}
+			return x.selectField(env, base, n.Sel)
+		}
+	}
 	base := x.evalSpec(env, n.X)
 	return x.selectField(env, base, n.Sel)
+}
+
+// structElemLoc returns the location of s[i] when s is a slice of structs (nil otherwise).
+func (x *Exec) structElemLoc(env *SpecEnv, n *EIndex) *PtrV {
+	base := x.evalSpec(env, n.X)
+	s, ok := base.V.(*SliceV)
+	if !ok || base.T == nil {
+		return nil
+	}
+	sl, ok := base.T.Underlying().(*types.Slice)
+	if !ok {
+		return nil
+	}
+	if _, isS := sl.Elem().Underlying().(*types.Struct); !isS {
+		return nil
+	}
+	i := x.specIndexTerm(env, n.I)
+	return &PtrV{Ref: x.elemRefSt(env.state(), s.Base, BVBin("bvadd", s.Off, i)), Elem: sl.Elem()}
 }
 
 func (x *Exec) specQualified(env *SpecEnv, pkgName, name string) (TV, bool) {
@@ -773,6 +826,9 @@ func (x *Exec) evalSpecLoc(env *SpecEnv, e Expr) *PtrV {
 		if s, ok := base.V.(*SliceV); ok {
 			et := base.T.Underlying().(*types.Slice).Elem()
 			i := x.specIndexTerm(env, n.I)
+			if _, isS := et.Underlying().(*types.Struct); isS {
+				return &PtrV{Ref: x.elemRefSt(env.state(), s.Base, BVBin("bvadd", s.Off, i)), Elem: et}
+			}
 			return &PtrV{Ref: s.Base, Idx: BVBin("bvadd", s.Off, i), SlEl: true, Elem: et}
 		}
 	case *EIdent:
@@ -925,7 +981,8 @@ func (x *Exec) specQuant(env *SpecEnv, n *EQuant) TV {
 	for k, v := range env.names {
 		sub.names[k] = v
 	}
-	var binders []string
+	var binders, bnames []string
+	startFresh := x.fresh
 	for _, v := range n.Vars {
 		s, t, kind := x.specSortOf(env, v.Type)
 		if kind == "composite" {
@@ -933,6 +990,7 @@ func (x *Exec) specQuant(env *SpecEnv, n *EQuant) TV {
 			var ts []*Term
 			for _, c := range x.compsOf(t) {
 				bc := x.freshBound(v.Name+c.suffix, c.sort)
+				bnames = append(bnames, bc.S)
 				binders = append(binders, fmt.Sprintf("(%s %s)", bc.S, c.sort.String()))
 				ts = append(ts, bc)
 			}
@@ -941,6 +999,7 @@ func (x *Exec) specQuant(env *SpecEnv, n *EQuant) TV {
 			continue
 		}
 		b := x.freshBound(v.Name, s)
+		bnames = append(bnames, b.S)
 		binders = append(binders, fmt.Sprintf("(%s %s)", b.S, s.String()))
 		switch kind {
 		case "int":
@@ -958,6 +1017,9 @@ func (x *Exec) specQuant(env *SpecEnv, n *EQuant) TV {
 	// conjoin what was assumed (definitions of named terms) into the body as antecedents.
 	scratch := env.state().Clone()
 	sub2 := sub
+	// applications of recursive spec functions stay folded under a binder: their unfolding would
+	// become an antecedent over the bound variable and weaken assumed invariants
+	sub2.noUnfold = true
 	if env.inOld {
 		sub2.old = scratch
 	} else {
@@ -972,6 +1034,49 @@ func (x *Exec) specQuant(env *SpecEnv, n *EQuant) TV {
 	q := "forall"
 	if !n.Forall {
 		q = "exists"
+	}
+	if len(extra) > 0 {
+		// Facts recorded while evaluating the body (well-formedness of loaded cells, axiom instances)
+		// hold for every value of the bound variables. Those that do not mention the bound variables
+		// are stated outside the quantifier; under an existential the others are stated once,
+		// universally, instead of being conjoined to the witness condition (otherwise a goal
+		// "exists j :: P(j)" would also have to re-prove them). Facts that define a symbol created
+		// during this evaluation stay inside the body.
+		var keep, hoist []*Term
+		for _, e := range extra {
+			if mentionsFreshSince(e.S, startFresh) {
+				keep = append(keep, e)
+				continue
+			}
+			own := false
+			for _, b := range bnames {
+				if strings.Contains(e.S, b) {
+					own = true
+					break
+				}
+			}
+			switch {
+			case !own:
+				env.state().Assume(e)
+			case !n.Forall:
+				hoist = append(hoist, e)
+			default:
+				keep = append(keep, e)
+			}
+		}
+		// Stating them universally gives the solvers trigger-less quantifiers that they instantiate
+		// without end; they are left out (facts about the witness that a proof needs can be written
+		// in the quantifier body).
+		if len(hoist) > 0 && hoistExistsFacts {
+			// canonical bound names, so that the same fact hoisted from several evaluations of one
+			// expression is one assertion
+			txt := fmt.Sprintf("(forall (%s) %s)", strings.Join(binders, " "), And(hoist...).S)
+			for i, b := range bnames {
+				txt = strings.ReplaceAll(txt, b, fmt.Sprintf("|hb?%d|", i))
+			}
+			env.state().Assume(&Term{S: txt, Sort: SBool})
+		}
+		extra = keep
 	}
 	if len(extra) > 0 {
 		if n.Forall {
@@ -1051,6 +1156,45 @@ func (x *Exec) specCall(env *SpecEnv, n *ECall) TV {
 			specFail("isnan() needs a float64")
 		}
 		return mkSpecBool(App("fp.isNaN", SBool, ft))
+	case "mk": // mk(type(T), f1, f2, ...): the struct value T{f1, f2, ...} (nil allowed for reference-typed fields)
+		ta, ok := n.Args[0].(*ETypeArg)
+		if !ok {
+			specFail("mk(type(T), fields...)")
+		}
+		t := x.P.LookupType(env.typesPkg(), ta.Type)
+		if t == nil {
+			specFail("unknown type %s", ta.Type)
+		}
+		us, ok := t.Underlying().(*types.Struct)
+		if !ok || us.NumFields() != len(n.Args)-1 {
+			specFail("mk: %s is not a struct with %d fields", ta.Type, len(n.Args)-1)
+		}
+		sv := &StructV{T: us}
+		for i := 0; i < us.NumFields(); i++ {
+			fv := arg(i + 1)
+			if s, isS := fv.V.(*SpecVal); isS && s.Kind == "nil" {
+				sv.Fields = append(sv.Fields, x.zeroValue(us.Field(i).Type()))
+				continue
+			}
+			sv.Fields = append(sv.Fields, x.coerceTo(fv, us.Field(i).Type()).V)
+		}
+		return TV{sv, t}
+	case "mapval": // mapval(m, f1, f2, ...): m[K{f1, f2, ...}] for a map whose key is a struct of scalar fields
+		m := arg(0)
+		mt, ok := m.T.Underlying().(*types.Map)
+		if !ok {
+			specFail("mapval() needs a map")
+		}
+		ks, ok := mt.Key().Underlying().(*types.Struct)
+		if !ok || ks.NumFields() != len(n.Args)-1 {
+			specFail("mapval(m, fields...): the key type must be a struct with %d fields", len(n.Args)-1)
+		}
+		kv := &StructV{T: ks}
+		for i := 0; i < ks.NumFields(); i++ {
+			kv.Fields = append(kv.Fields, x.coerceTo(arg(i+1), ks.Field(i).Type()).V)
+		}
+		val, _ := x.mapGet(st, m.V.(*Term), mt, kv)
+		return TV{val, mt.Elem()}
 	case "bytesbv": // bytesbv(slice, n): the first n bytes of a []byte as an [n]byte value (n <= 64)
 		a := arg(0)
 		sl, ok := a.V.(*SliceV)
@@ -1129,7 +1273,7 @@ func (x *Exec) specCall(env *SpecEnv, n *ECall) TV {
 		} else {
 			b = a.V.(*Term)
 		}
-		return TV{V: &SpecVal{Kind: "seq", T: x.D.Fun("seqbyte", SSeq, b)}}
+		return TV{V: &SpecVal{Kind: "seq", T: x.seqByte(st, b)}}
 	case "dyn":
 		a := arg(0)
 		iv, ok := a.V.(*IfaceV)
@@ -1360,6 +1504,18 @@ func (x *Exec) applySpecFunc(env *SpecEnv, sf *SpecFunc, args []Expr) TV {
 	if sf.Body != nil && !sf.Rec {
 		return evalBody(env.noUnfold)
 	}
+	if sf.Opaque && sf.Body != nil {
+		x.revealOpaque(env, sf)
+		envNo := *env
+		envNo.noUnfold = true
+		app := x.applySpecFuncVals(&envNo, sf, vals)
+		if !env.noUnfold {
+			// ground instance of the definition, for solvers that do not instantiate the axiom
+			body := evalBody(true)
+			env.state().Assume(x.specEq(env, app, body))
+		}
+		return app
+	}
 	if sf.Rec && sf.Body != nil && !env.noUnfold {
 		// recursive definition: the application is an uninterpreted term plus its one-step unfolding
 		envNo := *env
@@ -1524,7 +1680,14 @@ func (x *Exec) specMethodCall(env *SpecEnv, sel *ESel, args []Expr) TV {
 		}
 		val, _ := x.unflatten(rt, ts)
 		// same assumptions as at a call site in code: representation invariant, and the result
-		// refers to memory that existed at entry (a getter does not allocate what it returns)
+		// refers to memory that existed at entry (a getter does not allocate what it returns).
+		// When the caller immediately selects one field of a struct result, only that field's
+		// facts are stated (by the caller).
+		if _, isS := rt.Underlying().(*types.Struct); isS && x.rawSel == sel {
+			x.rawSel = nil
+			x.rawDone = true
+			return TV{val, rt}
+		}
 		x.assumeTypeInv(env.state(), rt, val)
 		x.markOld(env.state(), rt, val)
 		return TV{val, rt}
